@@ -420,6 +420,54 @@ def check_case(ctx, c, stratum="op"):
                 bad("graph-port-type", off, want[1], None if pt is None else dump_t(pt))
 
 
+def check_declared_poly(ctx, case, stratum="declared-poly"):
+    """a polymorphic function whose outputs are DECLARED up front (define_function(..., output_types, type_params) or
+    declare_outputs): its function port keeps the type parameters, and calls / loads of it expose the instantiated
+    signature with the function port right after the value inputs"""
+    from hugr import tys
+    from hugr.build import Module
+
+    k, m, via = case["k"], case["m"], case["via"]
+    C = tys.TypeBound.Copyable
+    T = tys.Variable(0, C)
+    ins, outs = [T] * k + [tys.Bool], [T] * m
+    mod = Module()
+    if via == "define_function":
+        f = mod.define_function("p", ins, outs, [tys.TypeTypeParam(C)])
+    else:
+        f = mod.define_function("p", ins, None, [tys.TypeTypeParam(C)])
+        f.declare_outputs(outs)
+    h = mod.hugr
+    ctx.count("monitor:declared-poly")
+    kd = h.port_kind(f.parent_node.out(0))
+    sig = getattr(kd, "ty", None)
+    if not isinstance(kd, tys.FunctionKind) or len(sig.params) != 1 or len(sig.body.input) != k + 1 \
+            or len(sig.body.output) != m:
+        ctx.disc(None, "declared-poly-function-port", via, f"forall [Type]. {k + 1} inputs -> {m} outputs", repr(kd),
+                 stratum=stratum, case=case)
+        return
+    caller = mod.define_function("main", [tys.Qubit] * 0 + [tys.Unit] * k + [tys.Bool])
+    inst = tys.FunctionType([tys.Unit] * k + [tys.Bool], [tys.Unit] * m)
+    c = caller.call(f, *caller.inputs(), instantiation=inst, type_args=[tys.TypeTypeArg(tys.Unit)])
+    cop = h[c].op
+    for off in range(k + 1):
+        want = tys.Unit if off < k else tys.Bool
+        kin = h.port_kind(c.inp(off))
+        if not isinstance(kin, tys.ValueKind) or kin.ty != want:
+            ctx.disc(None, "declared-poly-call-port", [via, "in", off], repr(want), repr(kin), stratum=stratum, case=case)
+    if not isinstance(h.port_kind(c.inp(k + 1)), tys.FunctionKind) or cop.num_out != m:
+        ctx.disc(None, "declared-poly-call-port", [via, "function port / num_out"], [k + 1, m],
+                 [repr(h.port_kind(c.inp(k + 1))), cop.num_out], stratum=stratum, case=case)
+    for off in range(m):
+        if h.port_type(c.out(off)) != tys.Unit:
+            ctx.disc(None, "declared-poly-call-port", [via, "out", off], "Unit", repr(h.port_type(c.out(off))),
+                     stratum=stratum, case=case)
+    lf = caller.load_function(f, instantiation=inst, type_args=[tys.TypeTypeArg(tys.Unit)])
+    lt = h.port_type(lf.out(0))
+    if lt != inst:
+        ctx.disc(None, "declared-poly-load-type", via, repr(inst), repr(lt), stratum=stratum, case=case)
+
+
 def check_history(ctx, hist, stratum="history"):
     """The graph-level port queries under a mutation history with deletions and index re-use: after every step, for
     every live node, Hugr.port_kind / port_type of each of its ports is what the operation it holds NOW says (every
@@ -622,6 +670,10 @@ def run(ctx):
                         force=("rowpoly-call",) if i % 4 == 0 else ())
         nn = ctx.guard("program", p, check_program_ports, ctx, p)
         ctx.case("program", p, nn is not None and nn >= 6)
+    for i in ctx.mine(24):
+        case = {"k": i % 4, "m": (i // 4) % 3, "via": ["define_function", "declare_outputs"][(i // 12) % 2]}
+        ctx.guard("declared-poly", case, check_declared_poly, ctx, case)
+        ctx.case("declared-poly", case, True)
     from vf.gen.histories import gen_history
 
     for i in ctx.mine(ctx.n(400, 20000)):
@@ -654,5 +706,7 @@ def replay(ctx, rec):
         check_program_ports(ctx, rec["case"])
     elif rec.get("stratum") == "history":
         check_history(ctx, rec["case"])
+    elif rec.get("stratum") == "declared-poly":
+        check_declared_poly(ctx, rec["case"])
     else:
         check_case(ctx, rec["case"])
